@@ -5,7 +5,7 @@ from ..acceptors_r2 import acc_C14
 from ..explore_r import Scenario, S, mkcfg, bl, sl, bm
 
 WIT = ["shocked_fundamental_values", "unshocked_fundamental_values", "mistake_order_placed", "orders_unchanged",
-       "order_for_other_market_at_trigger_time", "disabled_shock", "complete_runs"]
+       "order_for_other_market_at_trigger_time", "mistake_order_replaces_hft_order", "disabled_shock", "complete_runs"]
 RULE = ("grid of shock placements (target market, session, trigger time, window length, rate sign, enabled) x all executions "
         "within the deviation bound (activation permutations, menu choices of agents that submit to all markets); fundamental "
         "paths compared with the closed form for every market and time, every accepted order compared with what its agent "
@@ -21,12 +21,17 @@ def _small_chunks(w):
         m.chunk_size = 2
 
 
-def base(events, sess_events, meta, name, small_chunks=False):
+def base(events, sess_events, meta, name, small_chunks=False, hft=False):
     markets = [dict(name="M0", drift=DRIFT["M0"]), dict(name="M1", drift=DRIFT["M1"], tick=0.5)]
     ags = [dict(name="A0", menu=MENU, program=[1, 1, 4], markets=["M0", "M1"]),
            dict(name="A1", menu=MENU, program=[2, 3, 2], markets=["M0", "M1"])]
-    sessions = [S(0, 3, True, False, maxNormalOrders=2, **({"events": sess_events[0]} if sess_events[0] else {})),
-                S(1, 3, True, True, maxNormalOrders=2, **({"events": sess_events[1]} if sess_events[1] else {}))]
+    hk = {}
+    if hft:
+        # a high-frequency agent whose orders can be the first ones for a market in a step
+        ags.append(dict(name="H0", cls="ScriptedHFAgent", menu=MENU, program=[3, 1, 2], markets=["M0", "M1"]))
+        hk = dict(maxHighFrequencyOrders=1, highFrequencySubmitRate=1.0)
+    sessions = [S(0, 3, True, False, maxNormalOrders=2, **dict(hk, **({"events": sess_events[0]} if sess_events[0] else {}))),
+                S(1, 3, True, True, maxNormalOrders=2, **dict(hk, **({"events": sess_events[1]} if sess_events[1] else {})))]
     meta = dict(meta, initial={"M0": 100.0, "M1": 100.0}, drift=DRIFT)
     return Scenario(name, mkcfg(sessions, markets=markets, agents=ags, events=events), meta=meta,
                     post_setup=_small_chunks if small_chunks else None)
@@ -71,8 +76,10 @@ def m_scenarios():
                                   "orderVolume": 5, "orderTimeLength": life, "enabled": enabled}
                             se = [[], []]
                             se[sess] = ["SH"]
-                            sc[name] = base({"SH": ev}, se, dict(mshocks=[dict(target=target, session=sess, triggerTime=tt, rate=rate,
-                                            volume=5, lifetime=life, enabled=enabled)]), name)
+                            meta = dict(mshocks=[dict(target=target, session=sess, triggerTime=tt, rate=rate, volume=5, lifetime=life, enabled=enabled)])
+                            sc[name] = base({"SH": ev}, se, meta, name)
+                            if enabled and life == 1:
+                                sc[name + "-hft"] = base({"SH": ev}, se, meta, name + "-hft", hft=True)
     return sc
 
 
@@ -105,7 +112,7 @@ def run(tier, seed):
     run_r("C14", tier, seed, f_scenarios(), [acc_C14], 1 if tier == "quick" else 2, on_exc, [], RULE, res=res, label="fundamental_shocks", split=0)
     ms = m_scenarios()
     run_r("C14", tier, seed, ms, [acc_C14], 1 if tier == "quick" else 2, on_exc, [], RULE, res=res, label="order_mistake_shocks", split=0)
-    deep = {k: v for k, v in ms.items() if "-t1-r-0.5-ttl1-on" in k}
+    deep = {k: v for k, v in ms.items() if "-t1-r-0.5-ttl1-on" in k and not k.endswith("-hft")}
     deep.update(both_scenarios())
     run_r("C14", tier, seed, deep, [acc_C14], 2 if tier == "quick" else 3, on_exc, WIT, RULE, res=res, label="order_mistake_shocks_deeper")
     return res
